@@ -72,6 +72,9 @@ func cliCase(f []string) string {
 		if strings.Contains(k, "=") || k == "" {
 			return "CLISKIP switch"
 		}
+		if len(src)%3 == 0 {
+			args = append(args, "-s", k+"=__decoy__") // a repeated -s: the last definition counts
+		}
 		args = append(args, "-s", k+"="+c.switches[k])
 	}
 	// every other case writes through -o into a file that already holds (longer) stale content:
